@@ -20,11 +20,34 @@ import re
 
 from harness.common import VERIF, enc, dec, run_driver
 
-from insights.parsers.rpm_vercmp import _rpm_vercmp, rpm_version_compare
+from insights.parsers import rpm_vercmp as _impl
 from insights.parsers.installed_rpms import InstalledRpm, InstalledRpms
 from insights.tests import context_wrap
 
 ALPHA = ["0", "1", "9", "00", "10", "a", "b", "Z", "ab", ".", "-", "_", "~", "^", "+", "é", "€", "~~", "^1", "01", "a1", "1a", "rc", "el7"]
+
+
+# A comparison that raises is an outcome of the implementation, not a fault of the harness: it is reported as the
+# value RAISED (never equal to -1, 0 or 1), so every oracle clause and the model comparison see it and the pair
+# becomes the replay.
+RAISED = 99
+RAISED_LOG = []
+
+
+def _rpm_vercmp(a, b):
+    try:
+        return _impl._rpm_vercmp(a, b)
+    except Exception as e:
+        RAISED_LOG.append(("_rpm_vercmp", type(e).__name__))
+        return RAISED
+
+
+def rpm_version_compare(a, b):
+    try:
+        return _impl.rpm_version_compare(a, b)
+    except Exception as e:
+        RAISED_LOG.append(("rpm_version_compare", type(e).__name__))
+        return RAISED
 
 
 def c_rpmvercmp(a, b):
@@ -196,6 +219,8 @@ def ops_impl(a, b):
             out.append("1" if f() else "0")
         except ValueError:
             out.append("E")
+        except Exception as e:
+            out.append("raised:" + type(e).__name__)
     return ",".join(out)
 
 
@@ -339,12 +364,16 @@ def run(chk):
             evrs.append(rng.choice([base, (base[0], mutate_ascii(rng, base[1], ascii_alpha), base[2]),
                                     (rng.choice([0, 1, 2]), gen_ascii(4), gen_ascii(3))]))
         content = "\n".join("pkg-%d:%s-%s.x86_64" % e for e in evrs)
-        rpms = InstalledRpms(context_wrap(content))
-        got = rpms.packages.get("pkg", [])
-        if [(int(p.epoch), p.version, p.release) for p in got] != evrs:
-            chk.count("lists:parse-differs")
+        try:
+            rpms = InstalledRpms(context_wrap(content))
+            got = rpms.packages.get("pkg", [])
+            if [(int(p.epoch), p.version, p.release) for p in got] != evrs:
+                chk.count("lists:parse-differs")
+                continue
+            mx, mn = rpms.newest("pkg"), rpms.oldest("pkg")
+        except Exception as e:
+            chk.failure("InstalledRpms / newest / oldest raised %s: %s on %r" % (type(e).__name__, e, evrs), {"op": "max", "evrs": evrs})
             continue
-        mx, mn = rpms.newest("pkg"), rpms.oldest("pkg")
         impl.append("%s|%s" % (show(mx), show(mn)))
         flat = "\t".join("%d\t%s\t%s" % (e[0], enc(e[1]), enc(e[2])) for e in evrs)
         lines.append("max\t" + flat)
@@ -404,9 +433,13 @@ def replay(data):
             "1" if v else "0" for v in (cmpv == 0, cmpv != 0, cmpv < 0, cmpv <= 0, cmpv > 0, cmpv >= 0)))
     elif op in ("max", "min"):
         evrs = [tuple(e) for e in c["evrs"]]
-        rpms = InstalledRpms(context_wrap("\n".join("pkg-%d:%s-%s.x86_64" % e for e in evrs)))
-        mx, mn = rpms.newest("pkg"), rpms.oldest("pkg")
-        print("impl newest=%s oldest=%s" % (show(mx), show(mn)))
-        bad = any(rpm_version_compare(p, mx) > 0 or rpm_version_compare(p, mn) < 0 for p in rpms.packages["pkg"])
+        try:
+            rpms = InstalledRpms(context_wrap("\n".join("pkg-%d:%s-%s.x86_64" % e for e in evrs)))
+            mx, mn = rpms.newest("pkg"), rpms.oldest("pkg")
+            print("impl newest=%s oldest=%s" % (show(mx), show(mn)))
+            bad = any(rpm_version_compare(p, mx) > 0 or rpm_version_compare(p, mn) < 0 for p in rpms.packages["pkg"])
+        except Exception as e:
+            print("impl raised %s: %s" % (type(e).__name__, e))
+            bad = True
     print("property violated on this input" if bad else "property holds on this input")
     return 1 if bad else 0
